@@ -62,6 +62,14 @@ def sh(cmd, timeout=None, cwd=None, env=None, input=None):
 
 # ----------------------------------------------------------------------------------------------- builds
 
+def reset_signals():
+    """preexec_fn of every zinoma process the harness signals: a check started from a background shell job or under nohup
+    inherits SIGINT/SIGQUIT/SIGHUP as ignored, and an ignored signal sent before zinoma installs its handler is dropped"""
+    import signal as _s
+    for sg in (_s.SIGINT, _s.SIGQUIT, _s.SIGHUP, _s.SIGTERM):
+        _s.signal(sg, _s.SIG_DFL)
+
+
 def build_impl():
     """cargo build of the current working tree of /repo, hooks on. Returns (ok, log)."""
     with Lock('cargo'):
@@ -377,8 +385,11 @@ class Check:
             'coverage': cov, 'assumptions': self.assumptions, 'wall_s': round(time.time() - self.t0, 2),
             'violations': self.violations,
         }
-        os.makedirs(os.path.join(VERIF, 'evidence'), exist_ok=True)
-        with open(os.path.join(VERIF, 'evidence', self.prop + '.json'), 'w') as f:
+        # runs against another worktree (VERIF_REPO: seeded changes) must not overwrite the evidence of /repo
+        evdir = os.environ.get('VERIF_EVIDENCE_DIR') or (os.path.join(VERIF, 'evidence') if REPO == '/repo'
+                                                          else os.path.join(CACHE, 'evidence_other'))
+        os.makedirs(evdir, exist_ok=True)
+        with open(os.path.join(evdir, self.prop + '.json'), 'w') as f:
             json.dump(ev, f, indent=1, default=str)
         log('[%s] tier=%s evaluations=%d distinct=%d violations=%d known=%s wall=%.1fs' % (
             self.prop, self.tier, self.evaluations, len(self.distinct), self.violations, self.known_hits,
